@@ -1689,6 +1689,34 @@ func (c *Ctx) rankingOrder() {
 		site := "backtest." + fd.Name.Name
 		ast.Inspect(fd.Body, func(n ast.Node) bool {
 			call, ok := n.(*ast.CallExpr)
+			if ok && len(call.Args) == 2 {
+				// the best entry chosen by slices.MaxFunc / MinFunc: the ordering function decides
+				// which end of the order "max" is. MaxFunc needs an ascending one (negative when a's
+				// outcome is below b's), MinFunc a descending one; with the ranking's own descending
+				// function MaxFunc hands back the WORST result.
+				name := calleeName(info, call)
+				isMax, isMin := strings.HasPrefix(name, "slices.MaxFunc"), strings.HasPrefix(name, "slices.MinFunc")
+				if isMax || isMin {
+					sites++
+					signs, why := c.orderingSigns(info, bp, call.Args[1])
+					if why == "" {
+						want := [3]int{-1, 0, 1}
+						which := "slices.MaxFunc"
+						if isMin {
+							want = [3]int{1, 0, -1}
+							which = "slices.MinFunc"
+						}
+						if signs != want {
+							why = fmt.Sprintf("%s with an ordering function of signs %v on (below, equal, above) selects the result with the minimal outcome, not the best", which, signs)
+						}
+					}
+					run.Oblige(why == "")
+					if why != "" {
+						c.violate("backtest/ranking", site, "selection by "+short(exprString(call.Fun), 20), call.Pos(), why)
+					}
+					return true
+				}
+			}
 			if ok && !isSort(call) {
 				// a helper of the package that sorts the slice handed to it
 				if fn := callee(info, call); fn != nil {
@@ -3352,4 +3380,46 @@ func (c *Ctx) tiingoFields() {
 	}
 	run.Count("tiingo_snapshot_fields", len(keys))
 	run.Floor("tiingo_snapshot_fields", 6)
+}
+
+// orderingSigns evaluates an ordering function of two results (a literal or a function of the
+// package) on outcomes (0,1), (1,1), (1,0) and returns the signs of its value.
+func (c *Ctx) orderingSigns(info *types.Info, bp *packages.Package, arg ast.Expr) ([3]int, string) {
+	var out [3]int
+	var m *dtab.Machine
+	switch x := ast.Unparen(arg).(type) {
+	case *ast.FuncLit:
+		m = dtab.FromFuncLit(info, x)
+	case *ast.Ident:
+		if fn, isFn := info.Uses[x].(*types.Func); isFn {
+			if d := c.P.Decls[fn.Origin()]; d != nil && d.Decl.Body != nil && d.Pkg == bp {
+				m = dtab.FromFuncDecl(info, d.Decl)
+			}
+		}
+	}
+	switch {
+	case m == nil:
+		return out, "the ordering function is not a function literal or a function of the package (undecided, fails closed)"
+	case len(m.Unsupported) > 0 || len(m.State) > 0 || len(m.Params) != 2:
+		return out, "the ordering function is not a loop-free, effect-free function of its two arguments (undecided, fails closed)"
+	}
+	a, b := m.Params[0], m.Params[1]
+	for _, r := range m.Reads {
+		if r != a+".Outcome" && r != b+".Outcome" {
+			return out, "the ordering function reads " + r + ": the best result is the one with the maximal outcome"
+		}
+	}
+	for i, tc := range [][2]int64{{0, 1}, {1, 1}, {1, 0}} {
+		env := map[string]sym.Expr{a + ".Outcome": sym.N(tc[0]), b + ".Outcome": sym.N(tc[1])}
+		ps, ok := m.Select(env, numOracle)
+		if !ok || len(ps) != 1 || len(ps[0].Ret) != 1 {
+			return out, "the value of the ordering function is undecided (fails closed)"
+		}
+		v, okv := evalRat(ps[0].Ret[0], env)
+		if !okv {
+			return out, "the value of the ordering function is undecided (fails closed)"
+		}
+		out[i] = v.Sign()
+	}
+	return out, ""
 }
